@@ -31,6 +31,8 @@ SPEC = {
     'exhaustive': True,
 }
 
+SPEC['explanation'] += ' T9.front: the private operation that hands out the link of an existing key leaves it immediately before the anchor on every path (stored into anchor[PREV], or established to be there already).'
+SPEC['decided'] += ['hit moves the link to the front on every path']
 MANIFEST = {
     'technique': 'paired-effect (lock-step) analysis over all CFG paths with inlined helpers; dominating-guard check with comparison canonicalisation; who-may-write counters; observer purity of copy()',
     'text': ('Decides necessary structural conditions of C02 for all paths of all methods: the three structures (dict, '
